@@ -34,6 +34,9 @@ pub struct WorldCfg {
     pub exe_name: &'static str,
     /// library 0 carries its own DT_DEBUG leading to a second, different linker list
     pub alt_chain: bool,
+    /// object names of the linker list are packed at the very end of a mapping that is followed
+    /// by unmapped memory (a 256-byte read of such a name comes back short)
+    pub names_at_end: bool,
 }
 
 impl Default for WorldCfg {
@@ -48,6 +51,7 @@ impl Default for WorldCfg {
             link_map: true,
             exe_name: "/usr/bin/app",
             alt_chain: false,
+            names_at_end: false,
         }
     }
 }
@@ -216,12 +220,27 @@ pub fn build_world(r: &mut Rng, cfg: &WorldCfg) -> Built {
         heap[name_off] = 0;
         entries.push((EXE_BASE, HEAP_BASE + name_off as u64, EXE_BASE + exe.dyn_off));
         name_off += 1;
+        // optional separate page for the names, filled from its end
+        let names_page = HEAP_BASE + 0x10_0000;
+        let mut page = vec![0u8; 0x1000];
+        let mut page_end = 0x1000usize;
         for (path, base, img) in &libs {
             let nb = path.as_bytes();
-            heap[name_off..name_off + nb.len()].copy_from_slice(nb);
-            heap[name_off + nb.len()] = 0;
-            entries.push((*base, HEAP_BASE + name_off as u64, *base + img.dyn_off));
-            name_off += nb.len() + 1;
+            if cfg.names_at_end && page_end > nb.len() + 1 {
+                let at = page_end - nb.len() - 1;
+                page[at..at + nb.len()].copy_from_slice(nb);
+                page[at + nb.len()] = 0;
+                page_end = at;
+                entries.push((*base, names_page + at as u64, *base + img.dyn_off));
+            } else {
+                heap[name_off..name_off + nb.len()].copy_from_slice(nb);
+                heap[name_off + nb.len()] = 0;
+                entries.push((*base, HEAP_BASE + name_off as u64, *base + img.dyn_off));
+                name_off += nb.len() + 1;
+            }
+        }
+        if cfg.names_at_end && !libs.is_empty() {
+            regions.push(RegionSpec { start: names_page, len: 0x1000, perms: "rw-p".into(), offset: 0, inode: 0, name: B(Vec::new()), deleted: false, content: Content::Bytes(B(page)) });
         }
         heap[0..4].copy_from_slice(&1i32.to_le_bytes());
         heap[8..16].copy_from_slice(&(HEAP_BASE + lm0 as u64).to_le_bytes());
